@@ -354,6 +354,17 @@ def m_join(ex, st, recv, args, kwargs, node):
     ty = Ty.strip_opt(v.ty)
     if not isinstance(ty, (Ty.TList, Ty.TTuple)):
         raise Unsupported('join over %r' % (v.ty,))
+    known = st.notes.get(('elems', str(v.term)))
+    if known is not None and all(isinstance(e.ty, Ty.TStr) for e in known):
+        # a list built in this function whose elements are statically known: the join is the concatenation
+        if not known:
+            return [(st, const_sv(''))], []
+        parts = []
+        for i, e in enumerate(known):
+            if i:
+                parts.append(str_of(recv))
+            parts.append(str_of(e))
+        return [(st, S(parts[0] if len(parts) == 1 else z3.Concat(*parts)))], []
     et = ty.t if isinstance(ty, Ty.TList) else Ty.join(*ty.ts[:2]) if len(ty.ts) >= 2 else (ty.ts[0] if ty.ts else Ty.STR)
     if isinstance(ty, Ty.TList) and not isinstance(et, Ty.TStr):
         raise Unsupported('join over a list of %r' % (et,))
@@ -445,6 +456,9 @@ def m_format(ex, st, recv, args, kwargs, node):
 @method('list', 'append')
 def m_append(ex, st, recv, args, kwargs, node):
     a = va(recv.term)
+    known = st.notes.pop(('elems', str(recv.term)), None)
+    if known is not None:
+        st.notes[('elems', str(recv.term))] = known + [args[0]]
     old = st.L[a]
     new = z3.Concat(old, z3.Unit(args[0].term))
     st.L = z3.Store(st.L, a, new)
@@ -465,6 +479,9 @@ def m_extend(ex, st, recv, args, kwargs, node):
     v = args[0]
     if not isinstance(Ty.strip_opt(v.ty), (Ty.TList, Ty.TTuple)) or isinstance(v.ty, Ty.TOpt):
         raise Unsupported('extend with %r' % (v.ty,))
+    k1, k2 = st.notes.pop(('elems', str(recv.term)), None), st.notes.get(('elems', str(v.term)))
+    if k1 is not None and k2 is not None:
+        st.notes[('elems', str(recv.term))] = k1 + k2
     st.L = z3.Store(st.L, a, z3.Concat(st.L[a], st.L[va(v.term)]))
     return [(st, const_sv(None))], []
 
@@ -494,6 +511,8 @@ def m_copy(ex, st, recv, args, kwargs, node):
     st.DK = z3.Store(st.DK, n, st.DK[a])
     st.DV = z3.Store(st.DV, n, st.DV[a])
     st.DSZ = z3.Store(st.DSZ, n, st.DSZ[a])
+    if ('keys', str(recv.term)) in st.notes:
+        st.notes[('keys', str(VRef(n)))] = list(st.notes[('keys', str(recv.term))])
     return [(st, SV(VRef(n), recv.ty))], []
 
 
@@ -512,3 +531,58 @@ AX_INST = {
                           [Implies(And(z3.Length(t) > 0, Not(z3.Contains(s, t))), f_split(s, t) == z3.Unit(VStr(s)))],
     'utf8': lambda s: [f_decode(f_encode(s)) == s],
 }
+
+
+# ------------------------------------------------------------------------------------ E-URL / E-B64 (library functions)
+f_urlenc1 = z3.Function('urlenc1', StrS, StrS, StrS)        # urlencode({k: v}) == quote_plus(k) + '=' + quote_plus(v)
+f_b64 = z3.Function('b64', StrS, StrS)                      # base64.b64encode on byte strings
+f_unb64 = z3.Function('unb64', StrS, StrS)
+SP.STR_FUNCS.update(urlenc1=f_urlenc1, b64=f_b64, unb64=f_unb64)
+AXIOMS['b64'] = [z3.ForAll([_s], f_unb64(f_b64(_s)) == _s, patterns=[f_b64(_s)])]
+AXIOMS['unb64'] = []
+AXIOMS['urlenc1'] = []
+AX_INST['b64'] = lambda s: [f_unb64(f_b64(s)) == s]
+
+
+@builtin('future.backports.urllib.parse:urlencode')
+@builtin('urllib.parse:urlencode')
+def b_urlencode(ex, st, args, kwargs, node):
+    """exact (E-URL) for a mapping whose keys are statically known: the k=v pairs joined by '&' in insertion order"""
+    d = args[0]
+    keys = st.notes.get(('keys', str(d.term)))
+    if keys is None or kwargs or len(args) != 1:
+        return [(st, S(fresh('urlencoded', StrS)))], []
+    a = va(d.term)
+    parts = []
+    cur = [(st, [])]
+    # keys that may be absent (conditional stores) are not tracked by the note: only literal / stored-constant keys
+    for i, k in enumerate(keys):
+        v = st.DV[a][lit(k)]
+        if not isinstance(k, str):
+            return [(st, S(fresh('urlencoded', StrS)))], []
+        piece = f_urlenc1(z3.StringVal(k), vs(v))
+        parts.append(piece)
+    if not parts:
+        return [(st, const_sv(''))], []
+    out = parts[0]
+    for p in parts[1:]:
+        out = z3.Concat(out, z3.StringVal('&'), p)
+    return [(st, S(out))], []
+
+
+@builtin('base64:b64encode')
+def b_b64encode(ex, st, args, kwargs, node):
+    v = args[0]
+    if not isinstance(v.ty, Ty.TBytes):
+        raise Unsupported('b64encode of %r' % (v.ty,))
+    return [(st, SV(VBytes(f_b64(vy(v.term))), Ty.BYTES))], []
+
+
+@builtin('base64:b64decode')
+def b_b64decode(ex, st, args, kwargs, node):
+    v = args[0]
+    payload = vy(v.term) if isinstance(v.ty, Ty.TBytes) else vs(v.term)
+    ok = fresh('b64_ok', BoolS)
+    good, bad = ex.fork(st, ok, None)
+    raises = [ex.raised(bad, 'builtins:ValueError')] if bad is not None else []
+    return ([(good, SV(VBytes(f_unb64(payload)), Ty.BYTES))] if good is not None else []), raises
